@@ -1,9 +1,15 @@
 use std::future::Future;
 use std::pin::Pin;
 use std::sync::{Arc};
+#[cfg(not(cached_verif))]
 use std::sync::atomic::{AtomicBool, Ordering};
+#[cfg(cached_verif)]
+use crate::verif_rt::sync::atomic::{AtomicBool, Ordering};
 use std::task::{Context, Poll, Waker};
+#[cfg(not(cached_verif))]
 use parking_lot::Mutex;
+#[cfg(cached_verif)]
+use crate::verif_rt::sync::parking_lot::Mutex;
 use crate::cache::command::{CommandStatus, RejectionReason};
 
 /// The execution of every write operation is returned a `CommandAcknowledgement` wrapped inside [`crate::cache::command::command_executor::CommandSendResult`].
